@@ -43,3 +43,24 @@ Proof.
   repeat (apply Forall_cons; [split; [reflexivity|split; [split; discriminate|split; [vm_compute; discriminate|reflexivity]]]|]).
   apply Forall_nil.
 Qed.
+
+(* C07 at the level of query text (ASCII): two adjacent terms written with a blank between them, or with AND between them *)
+Require Import ParserJuxt ParserJuxtParse Build.
+Section J.
+Variable o : oracle.
+Variable cl : Lex.classes.
+Hypothesis ws_not_alnum : forall r, Lex.is_space r = true -> Lex.is_alnum cl r = false.
+
+Theorem juxt_same_text df pre t1 t2 post : term_tok t1 = true -> term_tok t2 = true ->
+  Forall (LexWs.lexes_alone cl) (map ltok (pre ++ t1 :: t2 :: post)) -> LexWs.lexes_alone cl (ltok and_tok) ->
+  Api.parse o cl df (text_of (pre ++ t1 :: t2 :: post)) = Api.parse o cl df (text_of (pre ++ t1 :: and_tok :: t2 :: post)).
+Proof.
+  intros H1 H2 HA Hand. unfold Api.parse.
+  rewrite (printed_text_lexes cl ws_not_alnum _ HA).
+  assert (HB : Forall (LexWs.lexes_alone cl) (map ltok (pre ++ t1 :: and_tok :: t2 :: post))).
+  { rewrite map_app in *. apply Forall_app in HA. destruct HA as [Hp Hr]. apply Forall_app. split; [exact Hp|].
+    cbn [map] in *. inversion Hr; subst. constructor; [assumption|]. constructor; assumption. }
+  rewrite (printed_text_lexes cl ws_not_alnum _ HB).
+  rewrite <- !app_assoc. cbn [app]. apply (juxt_same_parse o df pre t1 t2 (post ++ [eof]) H1 H2).
+Qed.
+End J.
